@@ -114,6 +114,10 @@ type World struct {
 	Viol  []Violation
 	Path  []Op
 	prop  string
+	// Tolerant: an unexpected error of the call is recorded in LastErr instead of
+	// being reported (fault injection); the model is then left unchanged.
+	Tolerant bool
+	LastErr  error
 	// pending (async) bookkeeping is not needed by the model: reads see writes at once
 	closed bool
 }
@@ -216,6 +220,10 @@ func (w *World) Apply(op Op) {
 		want := w.M.expectSingle(uuid, r)
 		err := w.DB.InsertOrUpdate(r)
 		got := classify(err)
+		if w.Tolerant && err != nil && got != want {
+			w.LastErr = err
+			return
+		}
 		if got != want {
 			w.fail("single-class|"+want+"->"+got, fmt.Sprintf("InsertOrUpdate: expected %s, got %s (%v)", want, got, err))
 			return
@@ -232,6 +240,10 @@ func (w *World) Apply(op Op) {
 		r.Initialize(uuid)
 		err := w.DB.Delete(r)
 		if err != nil {
+			if w.Tolerant {
+				w.LastErr = err
+				return
+			}
 			w.fail("delete-err", fmt.Sprintf("Delete returned %v", err))
 			return
 		}
@@ -244,6 +256,10 @@ func (w *World) Apply(op Op) {
 		}
 	case "delall":
 		if err := w.DB.DeleteAll(&Rec{}); err != nil {
+			if w.Tolerant {
+				w.LastErr = err
+				return
+			}
 			w.fail("deleteall-err", fmt.Sprintf("DeleteAll returned %v", err))
 			return
 		}
@@ -255,10 +271,18 @@ func (w *World) Apply(op Op) {
 		probe := spec.probes()[op.Probe]
 		s := w.DB.Search(&Rec{}, op.Field, op.Cmp, probe)
 		if s.Err() != nil {
+			if w.Tolerant {
+				w.LastErr = s.Err()
+				return
+			}
 			w.fail("sdel-search-err", fmt.Sprintf("Search(%s %s %v) failed: %v", op.Field, op.Cmp, probe, s.Err()))
 			return
 		}
 		if err := s.Delete(); err != nil {
+			if w.Tolerant {
+				w.LastErr = err
+				return
+			}
 			w.fail("sdel-err", fmt.Sprintf("Search.Delete returned %v", err))
 			return
 		}
@@ -269,6 +293,10 @@ func (w *World) Apply(op Op) {
 		w.applyBatch(op)
 	case "reopen":
 		if err := w.DB.Close(); err != nil {
+			if w.Tolerant {
+				w.LastErr = err
+				return
+			}
 			w.fail("close-err", fmt.Sprintf("Close returned %v", err))
 		}
 		w.open()
@@ -283,6 +311,10 @@ func (w *World) Apply(op Op) {
 		}
 	case "flushallc":
 		if err := w.DB.FlushAllAndCommit(&Rec{}); err != nil {
+			if w.Tolerant {
+				w.LastErr = err
+				return
+			}
 			w.fail("flushallc-err", fmt.Sprintf("FlushAllAndCommit returned %v", err))
 		}
 	case "commit":
@@ -410,6 +442,10 @@ func (w *World) applyBatch(op Op) {
 		want := w.expectMany(objs, recs)
 		n, err := w.DB.InsertOrUpdateMany(objs...)
 		got := classify(err)
+		if w.Tolerant && err != nil && got != want {
+			w.LastErr = err
+			return
+		}
 		if want == "othercoll" {
 			// batch addressed to a collection that was never created: must fail, nothing stored
 			if err == nil {
@@ -441,6 +477,17 @@ func (w *World) applyBatch(op Op) {
 		ch <- o
 	}
 	close(ch)
+	var snapM *Model
+	var snapSlots []string
+	snapEver := map[string]bool{}
+	snapViol := len(w.Viol)
+	if w.Tolerant {
+		snapM = w.M.Clone()
+		snapSlots = append([]string{}, w.Slots...)
+		for u := range w.Ever {
+			snapEver[u] = true
+		}
+	}
 	n, err := w.DB.InsertOrUpdateBulk(ch, op.CSize)
 	// model: fold many over chunks
 	wantN := 0
@@ -467,6 +514,16 @@ func (w *World) applyBatch(op Op) {
 		wantN += j - i
 	}
 	got := classify(err)
+	if w.Tolerant && err != nil && got != wantClass {
+		// injected storage fault: the chunks stored before the failure count (n of them)
+		w.LastErr = err
+		w.M, w.Slots, w.Ever = snapM, snapSlots, snapEver
+		w.Viol = w.Viol[:snapViol]
+		if n > 0 && n <= len(recs) {
+			w.acceptBatch(recs[:n], pre[:n], map[*Rec]bool{})
+		}
+		return
+	}
 	if wantClass == eOther {
 		if err == nil {
 			w.fail("bulk-othercoll", "InsertOrUpdateBulk with a chunk for an unknown collection succeeded")
